@@ -565,3 +565,13 @@ VK(idna_to_ascii) {
   bool ok = ada::idna::to_ascii(SV, o);
   return uint64_t(ok) | (vk_put(out, cap, o) << 8);
 }
+
+// ---------------------------------------------------------------- http(s) fast path (C01, C05, C11)
+// in = whole input; returns accepted | post_L<<16 ; out = state of the produced url_aggregator
+VK(fast_path) {
+  UNUSED;
+  ada::url_aggregator u;
+  bool ok = ada::parser::try_parse_simple_absolute<ada::url_aggregator>(SV, u);
+  if (!ok) return 0;
+  return vk_save(u, out, cap, 1);
+}
